@@ -138,14 +138,43 @@ def make_monitored_daemon_class(base=None):
     return MonitoredDaemon
 
 
+# configuration values the properties do not depend on: a daemon may run under any of these combinations (one per shard, picked from the
+# seed), so that a change that only misbehaves under a non-default setting is still driven
+VARIANTS = [
+    ("default", {}),
+    ("compression", {"COMPRESSION": True}),
+    ("detailed-traceback", {"DETAILED_TRACEBACK": True}),
+    ("nodelay+logwire", {"SOCK_NODELAY": True, "LOGWIRE": True}),
+    ("compression+detailed-traceback+nodelay", {"COMPRESSION": True, "DETAILED_TRACEBACK": True, "SOCK_NODELAY": True}),
+]
+VARIANT_DEFAULTS = {"COMPRESSION": False, "DETAILED_TRACEBACK": False, "SOCK_NODELAY": False, "LOGWIRE": False}
+
+
+LAST_VARIANT = None
+FORCED_VARIANT = None
+
+
+def variant_for(seed, *salt):
+    return core.h64(repr((seed,) + salt)) % len(VARIANTS)
+
+
 class Fixture:
-    def __init__(self, servertype="thread", unix=False, daemon_cls=None, interface=None, **cfg):
+    def __init__(self, servertype="thread", unix=False, daemon_cls=None, interface=None, variant=None, **cfg):
         P = pyro()
         install_fault_hooks()
         self.P = P
         config = P.config
         config.SERVERTYPE = servertype
         config.POLLTIMEOUT = cfg.pop("POLLTIMEOUT", 0.5)
+        global LAST_VARIANT
+        self.variant = "unvaried"
+        if FORCED_VARIANT is not None:
+            variant = FORCED_VARIANT      # replaying a recorded witness: the same configuration variant
+        if variant is not None:
+            LAST_VARIANT = variant % len(VARIANTS)
+            self.variant, vcfg = VARIANTS[variant % len(VARIANTS)]
+            for k, v in dict(VARIANT_DEFAULTS, **vcfg).items():
+                setattr(config, k, v)
         for k, v in cfg.items():
             setattr(config, k, v)
         self.servertype = servertype
